@@ -62,7 +62,8 @@ class TTuple(T):
     def dt(self):
         key = repr(self)
         if key not in _dt_cache:
-            d = Datatype('Tup%d' % len(_dt_cache)); d.declare('mk', *[('f%d' % i, t.sort()) for i, t in enumerate(self.items)])
+            fs = [('f%d' % i, t.sort()) for i, t in enumerate(self.items)]
+            d = Datatype('Tup%d' % len(_dt_cache)); d.declare('mk', *fs)
             _dt_cache[key] = d.create()
         return _dt_cache[key]
     def sort(self): return self.dt()
@@ -77,7 +78,8 @@ class TDict(T):
     def dt(self):
         key = repr(self)
         if key not in _dt_cache:
-            d = Datatype('Dict%d' % len(_dt_cache)); d.declare('mk', ('keys', TList(self.k).sort()), ('map', ArraySort(self.k.sort(), self.v.sort())))
+            ks, ms = TList(self.k).sort(), ArraySort(self.k.sort(), self.v.sort())          # (component sorts first: they may create datatypes themselves)
+            d = Datatype('Dict%d' % len(_dt_cache)); d.declare('mk', ('keys', ks), ('map', ms))
             _dt_cache[key] = d.create()
         return _dt_cache[key]
     def sort(self): return self.dt()
@@ -98,7 +100,8 @@ class TObj(T):
     def dt(self):
         key = 'Obj_' + self.name
         if key not in _dt_cache:
-            d = Datatype(key); d.declare('mk', *[(n, t.sort()) for n, t in self.fields]); _dt_cache[key] = d.create()
+            fs = [(n, t.sort()) for n, t in self.fields]
+            d = Datatype(key); d.declare('mk', *fs); _dt_cache[key] = d.create()
         return _dt_cache[key]
     def sort(self): return self.dt()
     def idx(self, fname): return [n for n, _ in self.fields].index(fname)
